@@ -31,7 +31,13 @@ GAINS = [None, 0.5, 1, 2, 3, 7.3, 100]
 
 def events_for(r):
     if r <= 4096:
-        return list(range(r))
+        ev = list(range(r))
+        if r & (r - 1):
+            # a range that is not a power of two: the reader keeps as many bits as the range needs, so values above the upper limit
+            # r - 1 can legally occur in the file (e.g. 1000 .. 1023 for $PnR = 1000); they are beyond the limit before and after
+            top = 1 << (r - 1).bit_length()
+            ev += [r, r + 1, (r + top) // 2, top - 1]
+        return ev
     base = [0, 1, 2, 3, r // 2, r - 3, r - 2, r - 1, 5, r // 3]
     return base + list(range(10, 400, 7))
 
@@ -160,6 +166,25 @@ def check_limits(res, what, sig, before, after, converted, one, D, gate_channels
                               '%s: channel %d %s range limit is %r but the event that sat at the old limit %r is now %r' % (
                                   what, ch, 'upper' if side else 'lower', r1[side], lim, float(a[rows[0], ch])), one)
                 ok = False
+    # ... also on the events that do not touch the widest upper limit nor the smallest lower limit of the gated channels (a gate that
+    # looks at the extremes over all channels at once still has to drop what saturates a narrower channel)
+    try:
+        hi_all = [float(after.range(ch)[1]) for ch in range(D)]
+        lo_all = [float(after.range(ch)[0]) for ch in range(D)]
+        w = int(np.argmax(hi_all))
+        keep = (a[:, w] < hi_all[w]) & np.all(a > min(lo_all), axis=1) & np.all(a < max(hi_all), axis=1)
+        if keep.any() and not keep.all():
+            bsub, asub = before[keep], after[keep]
+            m0 = FlowCal.gate.high_low(bsub, list(range(D)), full_output=True).mask
+            m1 = FlowCal.gate.high_low(asub, list(range(D)), full_output=True).mask
+            if not np.array_equal(m0, m1):
+                k = int(np.nonzero(m0 != m1)[0][0])
+                res.violation(sig + ':gate-partial', '%s: on the events that reach neither the widest upper limit nor the smallest lower limit, high_low over all channels keeps %d events before and %d after the conversion; event %s is %s before, %s after' % (
+                    what, int(m0.sum()), int(m1.sum()), np.asarray(bsub)[k].tolist(), 'kept' if m0[k] else 'dropped', 'kept' if m1[k] else 'dropped'), one)
+                ok = False
+    except Exception as e:
+        res.violation(sig + ':gate-partial-raises:%s' % type(e).__name__, '%s: the default saturation gate on a row subset raised %s: %s' % (what, type(e).__name__, e), one)
+        ok = False
     # the default saturation gate commutes with the conversion
     for chs in (gate_channels or [converted, list(range(D))]):
         try:
